@@ -77,6 +77,9 @@ package cmds
 //@   before_call Exit#2 [nonzero_status] arg1 != 0
 //@   before_call Exit#3 [nonzero_status] arg1 != 0
 //@   before_call Exit#4 [nonzero_status] arg1 != 0
+// C10: targets are executed only while this process holds the workspace lock - unless the user asked to skip it; nothing
+// else (cache on or off, test or build) decides whether the lock is taken
+//@   before_call Execute#1 [workspace_locked_unless_explicitly_skipped] config.Global.SkipWorkspaceLock || (has(fsIsFile, lockPath) && lockCreator == me && has(alive, me))
 // "... naming the failed targets": the loop that prints one line per failed target runs to its end - no iteration ends
 // the process (Fatalf, os.Exit) before the remaining failures were named
 //@ loop #3
